@@ -137,13 +137,13 @@ type Run struct {
 	APIPanics  []string
 	Events     atomic.Int64
 
-	pubsDone     chan struct{}
-	allConsumers sync.WaitGroup
-	closersDone  chan struct{}
-	subbersDone  chan struct{}
-	cancelsDone  chan struct{}
-	closeOnce    sync.Once
-	decorated    []message.Subscriber
+	pubsDone        chan struct{}
+	consumersActive atomic.Int32
+	closersDone     chan struct{}
+	subbersDone     chan struct{}
+	cancelsDone     chan struct{}
+	closeOnce       sync.Once
+	decorated       []message.Subscriber
 }
 
 func (r *Run) topicName(t int) string { return fmt.Sprintf("%s/t%d", r.ID, t) }
@@ -320,13 +320,13 @@ func (r *Run) subscribe(i int, sp SubSpec, seed uint64) {
 	}
 	for c := 0; c < n; c++ {
 		s.consumers.Add(1)
-		r.allConsumers.Add(1)
+		r.consumersActive.Add(1)
 		go r.consume(s, seed)
 	}
 }
 
 func (r *Run) consume(s *SubRec, seed uint64) {
-	defer r.allConsumers.Done()
+	defer r.consumersActive.Add(-1)
 	defer s.consumers.Done()
 	sp := s.Spec
 	for msg := range s.ch {
@@ -528,12 +528,9 @@ func (r *Run) Close(n int) <-chan struct{} {
 	return done
 }
 
-// ConsumersDone returns a channel closed when every consumer goroutine saw its channel closed (or stopped).
-func (r *Run) ConsumersDone() <-chan struct{} {
-	done := make(chan struct{})
-	go func() { r.allConsumers.Wait(); close(done) }()
-	return done
-}
+// ConsumersIdle reports whether every consumer goroutine has returned (its channel was closed, or it stopped reading).
+// Use it with vlib.WaitUntil: subscriptions may still be created concurrently, so a WaitGroup cannot be used.
+func (r *Run) ConsumersIdle() bool { return r.consumersActive.Load() == 0 }
 
 // Drain reads and acks whatever is still receivable on every subscription whose consumers have stopped
 // (used after Close to observe that the channels are closed).
